@@ -44,6 +44,8 @@ pub enum Class {
     RelaxedInvalid,
     /// two vectors use overlapping element storage
     SharedStorage,
+    /// Valgrind memcheck reported an error during the step (second engine)
+    Memcheck,
     /// the worker process died (signal / abort)
     Crash,
     /// placeholder class for a violation minimised in a triage sub-process (signature in `context`)
@@ -74,6 +76,7 @@ impl Class {
             Class::HeapBlock => "heap-block",
             Class::RelaxedInvalid => "relaxed-invalid",
             Class::SharedStorage => "shared-storage",
+            Class::Memcheck => "memcheck",
             Class::Crash => "crash",
             Class::Triage => "triage",
             Class::Unsupported => "unsupported",
@@ -135,6 +138,8 @@ pub struct ExecOpts {
     pub alloc_monitor: bool,
     /// record a textual trace
     pub trace: bool,
+    /// running under Valgrind memcheck: no own instrumentation of storage, ask the tool after every step
+    pub memcheck: bool,
 }
 
 #[derive(Clone, Debug, Default)]
@@ -212,6 +217,7 @@ struct Ctx<'a> {
     policy: EnvPolicy,
     /// first non-fatal finding of the run (reported if nothing else is found)
     soft: Option<Violation>,
+    vg_errors: usize,
 }
 
 fn hash_snap(h: &mut LogHash, s: &Snap) {
@@ -822,11 +828,12 @@ pub fn run(scn: &Scenario, world: &mut dyn WorldOps, opts: &ExecOpts) -> RunRepo
     registry::disarm();
     registry::reset(crate::model::TAG_SPACE_MAX.min(info.tag_mod as usize).max(1));
     faultpoints::reset();
+    env::set_passthrough(opts.memcheck);
     env::begin_run(scn.policy, info.size, info.align);
     simalloc::begin_run(opts.alloc_monitor, scn.policy.realloc_moves != 0);
     world.configure(opts.free_place, opts.poison_spare);
     world.reset(scn.place);
-    let mut cx = Ctx { world, model: Model::new(info.clone()), info: info.clone(), snaps: Default::default(), h: LogHash::new(), rep: RunReport::default(), opts: opts.clone(), policy: scn.policy, soft: None };
+    let mut cx = Ctx { world, model: Model::new(info.clone()), info: info.clone(), snaps: Default::default(), h: LogHash::new(), rep: RunReport::default(), opts: opts.clone(), policy: scn.policy, soft: None, vg_errors: if opts.memcheck { crate::vg::count_errors() } else { 0 } };
     cx.h.u64(scn.world as u64);
     cx.take_snaps();
 
@@ -940,6 +947,14 @@ fn run_steps(cx: &mut Ctx, scn: &Scenario) -> Result<(), Violation> {
         let a1 = simalloc::counters();
         let n1 = (faultpoints::next_calls(), faultpoints::next_fired(), faultpoints::len_lies());
         cx.take_snaps();
+        if cx.opts.memcheck {
+            let e = crate::vg::count_errors();
+            if e > cx.vg_errors {
+                let n = e - cx.vg_errors;
+                cx.vg_errors = e;
+                return Err(cx.viol(Class::Memcheck, step, Some(&p), 0, format!("Valgrind memcheck reported {} error(s) while this step (or the snapshot after it) ran; see the memcheck log", n)));
+            }
+        }
 
         // which fault actually fired
         let mut fired: u8 = 0;
